@@ -187,3 +187,42 @@ def evaluate(ctx: Ctx, grid: Grid, recs: List[Dict[str, Any]], pid: str) -> Dict
         else:
             raise MachineryError(f"unknown obligation kind {kind}")
     return dict(seen)
+
+
+# the documented positional order of every functional form (written down here, NOT read from the code: a change of the order
+# silently re-interprets every positional caller)
+POSITIONAL = {
+    "bs_european_price": ["log_moneyness", "time_to_maturity", "volatility", "strike", "call"],
+    "bs_european_delta": ["log_moneyness", "time_to_maturity", "volatility", "call"],
+    "bs_european_gamma": ["log_moneyness", "time_to_maturity", "volatility", "strike"],
+    "bs_european_vega": ["log_moneyness", "time_to_maturity", "volatility", "strike"],
+    "bs_european_theta": ["log_moneyness", "time_to_maturity", "volatility", "strike"],
+    "bs_european_binary_price": ["log_moneyness", "time_to_maturity", "volatility", "call"],
+    **{f"bs_european_binary_{g}": ["log_moneyness", "time_to_maturity", "volatility", "call", "strike"] for g in ("delta", "gamma", "vega", "theta")},
+    "bs_american_binary_price": ["log_moneyness", "max_log_moneyness", "time_to_maturity", "volatility"],
+    **{f"bs_american_binary_{g}": ["log_moneyness", "max_log_moneyness", "time_to_maturity", "volatility", "strike"] for g in ("delta", "gamma", "vega", "theta")},
+    **{f"bs_lookback_{g}": ["log_moneyness", "max_log_moneyness", "time_to_maturity", "volatility", "strike"] for g in ("price", "delta", "gamma", "vega", "theta")},
+}
+
+
+def positional_forms(ctx: Ctx, grid: Grid) -> None:
+    """Every functional form called with positional arguments in the documented order equals the keyword call."""
+    import pfhedge.nn.functional as F
+    for name, order in POSITIONAL.items():
+        p, g = name[3:].rsplit("_", 1)
+        for call in ([True, False] if "call" in order else [True]):
+            kw = dict(grid.kwargs(), call=call)
+            try:
+                with torch.enable_grad():
+                    pos = getattr(F, name)(*[kw[a] for a in order]).detach()
+            except Exception as e:
+                ctx.violation(f"positional:{name}", f"{name} raised {type(e).__name__} for positional arguments in the documented order", {"order": order, "error": repr(e)[:200]})
+                continue
+            want = grid.value(p, call, g)
+            ctx.count(n=1)
+            pos = pos.expand(grid.shape)
+            bad = ~(((pos - want).abs() <= 1e-12 * (1 + want.abs())) | (pos.isnan() & want.isnan()))
+            if bool(bad.any()):
+                i = tuple(int(x) for x in bad.nonzero()[0])
+                ctx.violation(f"positional:{name}", f"{name}: positional arguments in the documented order ({', '.join(order)}) give another value than the keywords",
+                              {"call": call, "at": grid.describe(i), "positional": pos[i].item(), "keyword": want[i].item()})
